@@ -56,6 +56,18 @@ CLAIMS.update({
          "faults. The unconditional statement is proved FALSE (D6, (32767+1)/2) and reported as KNOWN-FINDING; twin programs search for "
          "any other mechanism.", "machine-checked proof (Lean 4) + twin-program search with known-finding classifier", "6 C14"),
 })
+CLAIMS.update({
+ 'C08': ("proof", "Proof, partial. Proved (all w, all values): the allocate/release pair around an array literal restores ap, the call/"
+         "end_call pair restores fp, a caught defeat re-enters the handler with the try's environment and continuation. The whole-program "
+         "statement is validated: the minimal stack size of scope-stress programs must not grow with the iteration count (a leak does), the "
+         "Lean monitor checks that ap is identical at every arrival at a loop head within an activation, and behaviour equals the reference.",
+         "machine-checked proof (Lean 4) of the release pairs + monitored execution and minimal-stack search", "6 C08"),
+ 'C18': ("proof", "Proof, partial. Proved: committed step and trace of either machine are unique (a run is a function of program and input); "
+         "the stack guard is monotone in the free space. Observed, not proved (runtime behaviour outside any model): byte-identical compiler "
+         "output across fresh interpreter processes and hash seeds. Validated: behaviour unchanged above the minimal stack size, output "
+         "differing only in the .zero directive, agreement across word sizes for value-bounded programs, --lint rejects or changes nothing.",
+         "machine-checked proof (Lean 4) of determinism + cross-configuration differential", "6 C18"),
+})
 PENDING = {}
 def main():
     props = [json.loads(l) for l in open(os.path.join(VERIF, 'properties.jsonl'))]
